@@ -92,7 +92,21 @@ pub fn update_baseline_from_results(
             // Start with existing baseline for add-only mode
             existing_baseline.cloned().unwrap_or_default()
         }
-        _ => Baseline::new(),
+        BaselineUpdateMode::Content | BaselineUpdateMode::Structure => {
+            // A partial update rewrites one kind of entry only: carry the existing
+            // entries of the other kind over unchanged.
+            let keep_structure = matches!(mode, BaselineUpdateMode::Content);
+            let mut kept = Baseline::new();
+            if let Some(existing) = existing_baseline {
+                for (path, entry) in existing.files() {
+                    if entry.is_structure() == keep_structure {
+                        kept.set(path, entry.clone());
+                    }
+                }
+            }
+            kept
+        }
+        BaselineUpdateMode::All => Baseline::new(),
     };
 
     for result in results {
